@@ -75,8 +75,12 @@ def xml_container(name, c, od=False, base_first=False):
 
 
 def render(d, style="prefix", prefix="xtce", od=False, extra_ns=False, comments=False, base_first=False, porder=None, torder=None,
-           corder=None, name="VERIF"):
-    """style: prefix | default | none.  comments: insert comments / whitespace between elements."""
+           corder=None, name="VERIF", boolcase=None):
+    """style: prefix | default | none.  comments: insert comments / whitespace between elements.
+    boolcase: 'Title' / 'UPPER' spell every true / false attribute value that way (the loader reads them case-insensitively);
+    by default documents in the default namespace use 'True', documents without namespace 'TRUE', prefixed ones 'true'."""
+    if boolcase is None:
+        boolcase = {"default": "Title", "none": "UPPER"}.get(style, "lower")
     body = f'<SpaceSystem name="{name}"><Header date="2024-01-01T00:00:00" version="1.0" author="verif"/><TelemetryMetaData>'
     body += "<ParameterTypeSet>" + "".join(xml_any_type(t, d["types"][t], od) for t in (torder or d["torder"])) + "</ParameterTypeSet>"
     body += "<ParameterSet>"
@@ -92,6 +96,8 @@ def render(d, style="prefix", prefix="xtce", od=False, extra_ns=False, comments=
     body += "</ParameterSet><ContainerSet>"
     body += "".join(xml_container(c, d["containers"][c], od, base_first) for c in (corder or d["corder"]))
     body += "</ContainerSet></TelemetryMetaData></SpaceSystem>"
+    if boolcase in ("Title", "UPPER"):
+        body = re.sub(r'="(true|false)"', lambda m: '="' + (m.group(1).title() if boolcase == "Title" else m.group(1).upper()) + '"', body)
     if comments:
         # a comment (and whitespace) as first child of every element that has children, and between all siblings
         body = re.sub(r"(<[A-Za-z][^>]*[^/]>)(?=<)", lambda m: m.group(1) + "\n  <!-- c -->\n  ", body)
